@@ -93,6 +93,16 @@ def generate(rng, tier):
             if ast[0][0] == 'pad_end':
                 fam = 'pad_end'
         cases.append({'ast': ast, 'trace': trace, 'family': fam, 'par': par})
+    # scale: windows of 257 and more, more than 32 windows open at once, batches of 257 and more - each result still
+    # belongs to the step of its closing item
+    from harness.muxprop import single_trace
+    bigs = [('roll', [257, 257]), ('roll', [300, 300]), ('roll', [33, 1]), ('roll', [50, 1]), ('roll', [100, 2]), ('roll', [200, 3]),
+            ('roll', [64, 50]), ('batch', 257), ('batch', 300)]
+    for fam, par in (bigs if tier != 'search' else bigs[:2]):
+        n = (par[0] if fam == 'roll' else par) * 2 + rng.choice([0, 1, 7])
+        items = [enc(i % 1000) for i in range(n)]
+        ast = [['roll', par[0], par[1], [['to_list']]]] if fam == 'roll' else [['batch', par]]
+        cases.append({'ast': ast, 'trace': single_trace(items, (rng.choice([0, 3]),)), 'family': fam, 'par': par})
     return cases
 
 
